@@ -44,6 +44,7 @@ type c16Msg struct {
 	Gap       time.Duration // pause before this message
 	ChunkGap  time.Duration // pause between Writer chunks
 	Timeout   time.Duration // C05: the writer's own context deadline for this message (0 = none)
+	YieldAt   int           // C05: the writer's context yields at its k-th Done() call (0 = never)
 }
 
 type c16Writer struct {
@@ -64,7 +65,7 @@ type c16Case struct {
 	FinalGap time.Duration
 }
 
-var c16Causes = []string{"local-close", "local-close", "peer-close", "violation", "read-limit", "closeread-data", "netconn-type", "wsjson"}
+var c16Causes = []string{"local-close", "local-close", "local-close-1005", "peer-close", "peer-close-empty", "violation", "read-limit", "closeread-data", "netconn-type", "wsjson"}
 
 var c16Modes = []c03Mode{
 	{"server/off", false, websocket.CompressionDisabled, ""},
@@ -303,8 +304,12 @@ func runC16(t fataler, c c16Case) (string, c16Result) {
 		switch c.Cause {
 		case "local-close":
 			conn.Close(websocket.StatusNormalClosure, "local close")
+		case "local-close-1005":
+			conn.Close(websocket.StatusNoStatusRcvd, "") // a Close frame with an empty payload
 		case "peer-close":
 			p.send(ref.Frame{Fin: true, Opcode: ref.OpClose, Payload: ref.ClosePayload(1001, "peer going away")})
+		case "peer-close-empty":
+			p.send(ref.Frame{Fin: true, Opcode: ref.OpClose}) // echoed with an empty payload
 		case "violation":
 			p.send(ref.Frame{Fin: true, Opcode: 0x3, Payload: []byte("reserved")})
 		case "read-limit":
